@@ -37,6 +37,7 @@ func main() {
 	histDir := flag.String("histdir", "", "directory to save every history as JSON (replayable)")
 	replay := flag.String("replay", "", "history JSON to replay")
 	firstID := flag.Int("firstid", 0, "id of the first history")
+	k3 := flag.Float64("k3", 0, "probability that a generated call targets the module-registered service (known finding K3)")
 	flag.Parse()
 
 	f, err := os.Create(*outPath)
@@ -106,7 +107,7 @@ func main() {
 			rng := rand.New(rand.NewSource(hs))
 			h := &History{ID: *firstID + i, Name: "gen", Seed: hs, CfgIdx: rng.Intn(len(cfgs))}
 			a := standardAtoms()
-			g := &Gen{rng: rng, tempo: 0.15 + 0.2*rng.Float64(), txUsed: map[uint64]bool{}}
+			g := &Gen{rng: rng, tempo: 0.15 + 0.2*rng.Float64(), txUsed: map[uint64]bool{}, k3: *k3}
 			h.Funding = (&Gen{rng: rng}).funding()
 			r := newRunner(w, a, h, out)
 			g.r = r
@@ -131,7 +132,7 @@ func main() {
 func runFixed(w *World, h *History, out *bufio.Writer, record func(*Runner)) {
 	ops := h.Ops
 	h.Ops = nil
-	a := standardAtoms()
+	a := atomsFor(h)
 	r := newRunner(w, a, h, out)
 	r.header()
 	for i := range ops {
